@@ -413,6 +413,7 @@ package lisp
 //@ pred KEEP(env) = rtOK(env) && env.Runtime == old(env.Runtime) && env.Runtime.Stack == old(env.Runtime.Stack) && len(env.Runtime.Stack.Frames) == old(len(env.Runtime.Stack.Frames)) && env.Runtime.evalNesting == old(env.Runtime.evalNesting) && len(env.Runtime.conditionStack) == old(len(env.Runtime.conditionStack))
 
 //@ functype LBuiltin
+//@   keeps LVal.sealed
 //@   requires arg0 != nil && arg0.Runtime != nil && arg0.Runtime.Stack != nil
 //@   ensures  BAL(arg0)
 //@   ensures  preserved(LEnv.evalCtx)
@@ -424,6 +425,7 @@ package lisp
 //@ pred PUSHED(env) = rtOK(env) && env.Runtime == old(env.Runtime) && env.Runtime.Stack == old(env.Runtime.Stack) && len(env.Runtime.Stack.Frames) == old(len(env.Runtime.Stack.Frames)) + 1 && env.Runtime.evalNesting == old(env.Runtime.evalNesting) && len(env.Runtime.conditionStack) == old(len(env.Runtime.conditionStack)) && env.Runtime.evalDepth == old(env.Runtime.evalDepth)
 
 //@ func (*LEnv).eval
+//@   keeps LVal.sealed
 //@   requires rtOK(env)
 //@   ghost    recovered : int
 //@   ensures  [recovered-host-panic-carries-the-marker] recovered > old(recovered) ==> IsInternalPanic(result)
@@ -435,9 +437,10 @@ package lisp
 //@   nopanic
 //@   ensures  [frames-below-keep-their-flags] FLAGS(env)
 //@   assert-at checkLimits [a-limit-error-is-located-at-the-form-being-evaluated] env.loc == local("v").source
-//@   property C05 C04 C06 C18
+//@   property C05 C04 C06 C18 C09
 
 //@ func (*LEnv).evalSExpr
+//@   keeps LVal.sealed
 //@   requires rtOK(env)
 //@   ensures  [balanced] BAL(env)
 //@   ensures  [evalctx-restored] preserved(LEnv.evalCtx)
@@ -445,13 +448,16 @@ package lisp
 //@   ensures-on-panic [evalctx-restored-on-panic] preserved(LEnv.evalCtx)
 //@   ensures  [frames-below-keep-their-flags] FLAGS(env)
 //@   ensures-on-panic [frames-below-keep-their-flags-on-panic] FLAGS(env)
-//@   property C05
+//@   property C05 C09
 
 //@ func (*LEnv).evalSExprCells
+//@   keeps LVal.sealed
 //@   requires rtOK(env)
 //@   loop 1 (rangeindex) invariant -1 <= rangeindex && rangeindex < old(len(s.Cells)) - 1
 //@   loop 1 (rangeindex) invariant [flags-below-top] FLAGSBELOW(env, old(len(env.Runtime.Stack.Frames)) - 1)
 //@   loop 1 (rangeindex) invariant [top-held-non-terminal] old(len(env.Runtime.Stack.Frames)) >= 1 ==> !env.Runtime.Stack.Frames[len(env.Runtime.Stack.Frames)-1].Terminal && env.Runtime.Stack.Frames[len(env.Runtime.Stack.Frames)-1].TROBlock == old(env.Runtime.Stack.Frames[len(env.Runtime.Stack.Frames)-1].TROBlock) && env.Runtime.Stack.Frames[len(env.Runtime.Stack.Frames)-1].FID == old(env.Runtime.Stack.Frames[len(env.Runtime.Stack.Frames)-1].FID)
+//@   loop 1 (rangeindex) invariant [the-argument-list-is-private] fresh(arr(newCells)) && arr(newCells) != nil && len(newCells) >= 1
+//@   ensures  [an-error-or-a-private-call-value] result.Type == LError || (result.Type == LSExpr && fresh(result) && !result.sealed && fresh(arr(result.Cells)) && len(result.Cells) >= 1)
 //@   loop 1 (rangeindex) invariant [ctx] preserved(LEnv.evalCtx)
 //@   loop 1 (rangeindex) invariant KEEP(env) && env.Runtime.evalDepth == old(env.Runtime.evalDepth)
 //@   ensures  [balanced] BAL(env)
@@ -462,9 +468,10 @@ package lisp
 //@   ensures-on-panic [loc-restored-on-panic] env.loc == old(env.loc)
 //@   ensures  [frames-below-keep-their-flags] FLAGS(env)
 //@   ensures-on-panic [frames-below-keep-their-flags-on-panic] FLAGS(env)
-//@   property C05 C18 C02
+//@   property C05 C18 C02 C09
 
 //@ func (*LEnv).funCall
+//@   keeps LVal.sealed
 //@   requires rtOK(env) && fun != nil
 //@   loop 1 (_) invariant PUSHED(env)
 //@   loop 1 (_) invariant [flags] FLAGS(env)
@@ -486,9 +493,10 @@ package lisp
 //@   assert-at PushFID [the-tail-chain-is-sought-whenever-no-debugger-is-attached] env.Runtime.Debugger == nil ==> local("npop") == ret("TerminalFID", 0)
 //@   assert-at markTailRec [mark-only-for-a-found-chain] arg0 == local("npop") && arg0 > 0 && arg1 == fun && arg2 == args
 //@   assert-at call [body-not-run-when-a-chain-was-found] local("npop") <= 0
-//@   property C05 C02
+//@   property C05 C02 C09
 
 //@ func (*LEnv).specialOpCall
+//@   keeps LVal.sealed
 //@   requires rtOK(env)
 //@   loop 1 (_) invariant PUSHED(env)
 //@   loop 1 (_) invariant [flags] FLAGS(env)
@@ -506,9 +514,10 @@ package lisp
 //@   counts   ntc CheckTailCall
 //@   counts   ncall call
 //@   loop 1 (_) invariant [limits-consulted-every-turn] ncall - old(ncall) == nlim - old(nlim) && ncall - old(ncall) == ntc - old(ntc)
-//@   property C05 C02
+//@   property C05 C02 C09
 
 //@ func (*LEnv).macroCall
+//@   keeps LVal.sealed
 //@   requires rtOK(env)
 //@   ensures  [balanced] BAL(env)
 //@   ensures  [evalctx-restored] preserved(LEnv.evalCtx)
@@ -517,9 +526,10 @@ package lisp
 //@   ensures  [frames-below-keep-their-flags] FLAGS(env)
 //@   ensures-on-panic [frames-below-keep-their-flags-on-panic] FLAGS(env)
 //@   assert-at call [macro-frame-blocks-tail-elision] len(env.Runtime.Stack.Frames) >= 1 && env.Runtime.Stack.Frames[len(env.Runtime.Stack.Frames)-1].TROBlock
-//@   property C05 C02
+//@   property C05 C02 C09
 
 //@ func (*LEnv).call
+//@   keeps LVal.sealed
 //@   requires rtOK(env)
 //@   assume-at eval [single-runtime-per-env-tree] arg0 != nil && arg0.Runtime == env.Runtime
 //@   loop 1 (_) invariant [rt] rtOK(env) && env.Runtime == old(env.Runtime) && env.Runtime.Stack == old(env.Runtime.Stack)
@@ -539,11 +549,12 @@ package lisp
 //@   assert-at eval~return_fenv.eval(ctx,_body[len(body)-1]) [last-form-is-terminal-unless-macro] fun.FunType != LFunMacro ==> env.Runtime.Stack.Frames[len(env.Runtime.Stack.Frames)-1].Terminal
 //@   ensures  [frames-below-top-keep-their-flags] FLAGSBELOW(env, old(len(env.Runtime.Stack.Frames)) - 1)
 //@   ensures-on-panic [frames-below-top-keep-their-flags-on-panic] FLAGSBELOW(env, old(len(env.Runtime.Stack.Frames)) - 1)
-//@   property C05 C02
+//@   property C05 C02 C09
 
 //@ frame writers(LEnv.evalCtx) subset { (*LEnv).call, (*LEnv).call$1, WithContext$1, newEnvN } property C05
 
 //@ func (*LEnv).load
+//@   keeps LVal.sealed
 //@   requires rtOK(env)
 //@   loop 1 (rangeindex) invariant -1 <= rangeindex && rangeindex < len(exprs)
 //@   loop 1 (rangeindex) invariant [ctx] preserved(LEnv.evalCtx)
@@ -554,70 +565,77 @@ package lisp
 //@   ensures-on-panic [balanced-on-panic] BAL(env)
 //@   ensures-on-panic [evalctx-restored-on-panic] preserved(LEnv.evalCtx)
 //@   ensures-on-panic [package-restored-on-panic] env.Runtime.Package == old(env.Runtime.Package)
-//@   property C05 C04 C08
+//@   property C05 C04 C08 C09
 
 //@ func (*LEnv).Eval
+//@   keeps LVal.sealed
 //@   requires rtOK(env)
 //@   ensures  [balanced] BAL(env)
 //@   ensures  [evalctx-restored] preserved(LEnv.evalCtx)
 //@   ensures-on-panic [balanced-on-panic] BAL(env)
 //@   ensures-on-panic [evalctx-restored-on-panic] preserved(LEnv.evalCtx)
 //@   ensures  [frames-keep-their-flags] FLAGS(env)
-//@   property C05 C04
+//@   property C05 C04 C09
 
 //@ func (*LEnv).EvalContext
+//@   keeps LVal.sealed
 //@   requires rtOK(env)
 //@   ensures  [balanced] BAL(env)
 //@   ensures  [evalctx-restored] preserved(LEnv.evalCtx)
 //@   ensures-on-panic [balanced-on-panic] BAL(env)
 //@   ensures-on-panic [evalctx-restored-on-panic] preserved(LEnv.evalCtx)
 //@   ensures  [frames-keep-their-flags] FLAGS(env)
-//@   property C05 C04
+//@   property C05 C04 C09
 
 //@ func (*LEnv).EvalSExpr
+//@   keeps LVal.sealed
 //@   requires rtOK(env)
 //@   ensures  [balanced] BAL(env)
 //@   ensures  [evalctx-restored] preserved(LEnv.evalCtx)
 //@   ensures-on-panic [balanced-on-panic] BAL(env)
 //@   ensures-on-panic [evalctx-restored-on-panic] preserved(LEnv.evalCtx)
 //@   ensures  [frames-keep-their-flags] FLAGS(env)
-//@   property C05
+//@   property C05 C09
 
 //@ func (*LEnv).FunCall
+//@   keeps LVal.sealed
 //@   requires rtOK(env)
 //@   ensures  [balanced] BAL(env)
 //@   ensures  [evalctx-restored] preserved(LEnv.evalCtx)
 //@   ensures-on-panic [balanced-on-panic] BAL(env)
 //@   ensures-on-panic [evalctx-restored-on-panic] preserved(LEnv.evalCtx)
 //@   ensures  [frames-keep-their-flags] FLAGS(env)
-//@   property C05
+//@   property C05 C09
 
 //@ func (*LEnv).FunCallContext
+//@   keeps LVal.sealed
 //@   requires rtOK(env)
 //@   ensures  [balanced] BAL(env)
 //@   ensures  [evalctx-restored] preserved(LEnv.evalCtx)
 //@   ensures-on-panic [balanced-on-panic] BAL(env)
 //@   ensures-on-panic [evalctx-restored-on-panic] preserved(LEnv.evalCtx)
 //@   ensures  [frames-keep-their-flags] FLAGS(env)
-//@   property C05
+//@   property C05 C09
 
 //@ func (*LEnv).MacroCall
+//@   keeps LVal.sealed
 //@   requires rtOK(env)
 //@   ensures  [balanced] BAL(env)
 //@   ensures  [evalctx-restored] preserved(LEnv.evalCtx)
 //@   ensures-on-panic [balanced-on-panic] BAL(env)
 //@   ensures-on-panic [evalctx-restored-on-panic] preserved(LEnv.evalCtx)
 //@   ensures  [frames-keep-their-flags] FLAGS(env)
-//@   property C05
+//@   property C05 C09
 
 //@ func (*LEnv).SpecialOpCall
+//@   keeps LVal.sealed
 //@   requires rtOK(env)
 //@   ensures  [balanced] BAL(env)
 //@   ensures  [evalctx-restored] preserved(LEnv.evalCtx)
 //@   ensures-on-panic [balanced-on-panic] BAL(env)
 //@   ensures-on-panic [evalctx-restored-on-panic] preserved(LEnv.evalCtx)
 //@   ensures  [frames-keep-their-flags] FLAGS(env)
-//@   property C05
+//@   property C05 C09
 
 // ---------------------------------------------------------------- handler-bind / ignore-errors (C05 balance, C06 semantics)
 
@@ -1053,6 +1071,7 @@ package lisp
 // symbols, strings and numbers: sealAST), so the two setters that write error
 // values cannot touch a sealed one.  `sealedKinds` is the part of the
 // representation invariant they rely on.
+//@ typeinv LVal sealedKinds
 //@ pred sealedKinds(v) = v.sealed ==> (v.Type == LSExpr || v.Type == LQuote || v.Type == LSymbol || v.Type == LQSymbol || v.Type == LString || v.Type == LInt || v.Type == LFloat)
 
 //@ func (*LVal).SetCallStack
@@ -1072,7 +1091,6 @@ package lisp
 // grows (frame: writers(Runtime.numsym) = {gensym}) and the spelling is an
 // injective rendering of it (fmt, assumed).  They must also be distinct from
 // every symbol the program text can contain: the spelling must not be readable.
-//@ frame writers(Runtime.numsym) subset { (*Runtime).gensym } property C07
 //@ func (*Runtime).GenSym
 //@   requires r != nil
 //@   ensures  [the-spelling-cannot-be-written-in-source] !(('a' <= result[0] && result[0] <= 'z') || ('A' <= result[0] && result[0] <= 'Z'))
@@ -1132,3 +1150,9 @@ package lisp
 //@   loop 1 (env) invariant [the-first-scope-that-binds-the-name-stops-the-walk] old(haskey(env0.scope, k.Str)) ==> env == env0
 //@   ensures  [the-innermost-binding-wins] old(haskey(env0.scope, k.Str)) ==> result == old(env0.scope[k.Str])
 //@   property C08
+
+// An error in flight gets its stack and location stamped; it is never a parsed node.
+//@ func (*LEnv).ErrorAssociate
+//@   requires rtOK(env) && lerr != nil
+//@   keeps LVal.sealed
+//@   property C09
